@@ -72,6 +72,17 @@ def handleSexExt5 (op : String) (inp : Json) (impl : Option Json) : R (Option Js
     let slack : Json := match res with
       | some (_, st) => (match st.combined with | some s => ratJ (absR (s - 1)) | none => Json.null)
       | none => Json.null
+    -- hypotheses of the table-level margin theorem (tables without a weight column, `skip_low` off)
+    let (marginFemale, marginHyp) ← (match optFld inp "margin" with
+      | some mj => do
+        let f ← getBool (← fld mj "female")
+        let a ← getRat (← fld mj "a")
+        let d ← getRat (← fld mj "d")
+        let av := (autoBins par t).map (·.log2)
+        let xv := (chrXBins par t).map (·.log2)
+        let yv := (chrYBins par t).map (·.log2)
+        pure (some f, !weighted && !skipLow && withinMargin hapX f a d av xv yv && allDegenerate hapX av xv yv)
+      | none => pure ((none : Option Bool), false))
     -- spec clauses on the REAL outputs (the theorems of Props/C15Glue evaluated on them)
     let spec ← (match impl with
       | none => pure Json.null
@@ -85,14 +96,27 @@ def handleSexExt5 (op : String) (inp : Json) (impl : Option Json) : R (Option Js
         let bad1 := match gx, sex with
           | some xx, some s => s != (if xx then "Female" else "Male")
           | _, _ => false
-        pure (arrJ ((if bad1 then ["sex_report_agrees_with_guess_xx"] else []).map strJ)))
+        -- the table-level margin theorem (`guessXX_and_report_within_margin`) on the real outputs
+        let bad2 := marginHyp && (match marginFemale, gx with
+          | some f, some xx => xx != f
+          | some _, none => true
+          | none, _ => false)
+        let bad3 := marginHyp && (match marginFemale, sex with
+          | some f, some s => s != (if f then "Female" else "Male")
+          | some _, none => true
+          | none, _ => false)
+        let names : List String := (if bad1 then ["sex_report_agrees_with_guess_xx"] else []) ++
+                    (if bad2 then ["guess_xx_within_margin_table"] else []) ++
+                    (if bad3 then ["sex_report_within_margin_table"] else [])
+        pure (arrJ (names.map strJ)))
     pure (some (obj [("out", obj [("is_male", c15xOptBoolJ (res.map (·.1))), ("stats", statsJ),
                                    ("guess_xx", c15xOptBoolJ guess),
                                    ("row", arrJ [strJ row.1, c15xCellJ row.2.1, c15xCellJ row.2.2]),
                                    ("n", arrJ [natJ auto.length, natJ chrx.length, natJ chry.length,
                                                natJ (chrYBins par t).length]),
                                    ("tables", arrJ (used.map fun (_, tbl) => c15xMoodJ tbl)),
-                                   ("deg_mismatch", arrJ degMismatch)]),
+                                   ("deg_mismatch", arrJ degMismatch),
+                                   ("margin_hyp", boolJ marginHyp)]),
                      ("slack", slack), ("spec", spec)]))
   | _ => pure none
 
